@@ -891,6 +891,10 @@ func genC06(c *ctx) {
 		}
 		b.emit(st, fmt.Sprintf("bind/%dnodes-%dbinds", len(nodes), nb), true, oracle)
 	}
+	if sym.TicketHelperFail != "" {
+		b := newBuilder(c.r.Fork())
+		b.emit(st, "binding-id", true, sym.TicketHelperFail)
+	}
 }
 
 // ---------------------------------------------------------------- C07: attestations
